@@ -27,7 +27,6 @@ def run(path):
 
 # refactorings outside the verified forms even after the second-chance normal form (DESIGN A.7): reported as "unproven"
 KNOWN_UNPROVEN = {
-    "ben6-2.diff": "open-note scan moved to a helper returning the element (caller tests `is not None`), lane loop with an explicit if instead of filter()",
     "ben14-1.diff": "grouping rewritten as a different algorithm (for right in range(1, n+1) with continue) inside a generator: not in the S1 family",
     "ben22-4.diff": "grouping rewritten as a third algorithm (for i in range(1, n) with continue, a second yield after the loop) inside a generator",
 }
